@@ -264,23 +264,35 @@ fn write_case(fat: [u16; 4], first: u32, size: u32, offset: u32, cursor: (u32, u
     let size1 = if new_end > size as usize { new_end as u32 } else { size };
     assert!(fi.entry.size == size1, "file.write: length != max(old length, end of the bytes written)");
     assert!(fi.current_offset == new_end as u32, "file.write: offset not advanced by the bytes written");
-    // ---- chain: old chain is a prefix, new clusters were free, chain long enough ----
+    // ---- chain: expected = old chain followed by the lowest free clusters (concrete) ----
+    let mut exp_chain = chain0;
+    let mut exp_n = n0;
+    {
+        let target = if need > have { if fits { need } else { have + nfree as usize } } else { have };
+        let mut cc = 0;
+        while cc < 4 {
+            if fat[cc] == 0 && exp_n < target && exp_n < 4 && len > 0 {
+                exp_chain[exp_n] = cc as u32 + 2;
+                exp_n += 1;
+            }
+            cc += 1;
+        }
+    }
     if have > 0 {
         assert!(first1 == first, "file.chain: first cluster changed");
     }
-    assert!(n1 * 512 >= size1 as usize, "file.chain: chain too short for the recorded length");
+    assert!(n1 == exp_n, "file.chain: chain length != old chain + clusters needed (from free clusters)");
     let mut i = 0;
     while i < 4 {
-        if i < n0 {
-            assert!(i < n1 && chain1[i] == chain0[i], "file.chain: existing part of the chain changed");
-        } else if i < n1 {
-            assert!(fat[(chain1[i] - 2) as usize] == 0, "file.chain: extended with a cluster that was not free");
+        if i < exp_n {
+            assert!(chain1[i] == exp_chain[i], "file.chain: chain is not the old chain followed by previously free clusters, linked in order");
         }
         i += 1;
     }
-    if len > 0 {
-        assert!(n1 == if need > have { if fits { need } else { have + nfree as usize } } else { have }, "space: clusters allocated != clusters needed");
-    }
+    assert!(exp_n * 512 >= size1 as usize, "file.chain: chain too short for the recorded length");
+    // from here on the (now established) concrete chain is used
+    let chain1 = exp_chain;
+    let n1 = exp_n;
     // ---- FAT frame: entries of clusters not in the new chain unchanged ----
     c = 0;
     while c < 4 {
